@@ -754,6 +754,12 @@ func (fv *FV) havocFramed(st *State, locs []modLoc, tag string) {
 			_, cur = st.heap.elemArr(sortFromKey(parts[0]), k)
 		default:
 			cur = st.heap.arrays[key]
+			if cur == nil {
+				cur = st.heap.initial(key)
+			}
+			if cur == nil {
+				continue
+			}
 		}
 		nw := fv.fresh(tag+"_"+key, cur.Sort)
 		isElemArr := strings.HasPrefix(key, "M:")
@@ -1129,22 +1135,29 @@ func (fv *FV) mapKeys(t types.Type) (*types.Map, *Sort) {
 
 func (fv *FV) mapArr(st *State, mt *types.Map, ks *Sort, comp int, vs *Sort) (string, *Term) {
 	key := fmt.Sprintf("MAP:%s#%d", typeKey(mt), comp)
+	touchedKeys[key] = true
 	if a, ok := st.heap.arrays[key]; ok {
 		return key, a
 	}
-	return key, Var(sanitize(fmt.Sprintf("MAP_%s_%d_0", typeKey(mt), comp)), ArraySort(RefSort, ArraySort(ks, vs)))
+	v := Var(sanitize(fmt.Sprintf("MAP_%s_%d_0", typeKey(mt), comp)), ArraySort(RefSort, ArraySort(ks, vs)))
+	keyInit[key] = v
+	return key, v
 }
 
 func (fv *FV) mapDom(st *State, mt *types.Map, ks *Sort) (string, *Term) {
 	key := fmt.Sprintf("MAPDOM:%s", typeKey(mt))
+	touchedKeys[key] = true
 	if a, ok := st.heap.arrays[key]; ok {
 		return key, a
 	}
-	return key, Var(sanitize(fmt.Sprintf("MAPDOM_%s_0", typeKey(mt))), ArraySort(RefSort, ArraySort(ks, BoolSort)))
+	v := Var(sanitize(fmt.Sprintf("MAPDOM_%s_0", typeKey(mt))), ArraySort(RefSort, ArraySort(ks, BoolSort)))
+	keyInit[key] = v
+	return key, v
 }
 
 func (fv *FV) mapLenArr(st *State) (string, *Term) {
 	key := "MAPLEN"
+	touchedKeys[key] = true
 	if a, ok := st.heap.arrays[key]; ok {
 		return key, a
 	}
